@@ -22,7 +22,7 @@ import (
 var c13Pool = []string{"a.yaml", "b/x.yaml", "b.yaml", "c.yaml.gotmpl", "d/z.yml", "e.yaml.gotmpl"}
 
 type c13Doc struct {
-	Phase string `json:"phase"` // p1 | p2 | none (no phase annotation -> validation error)
+	Phase string `json:"phase"` // p1 | p2 | none (no phase annotation) | p1ws ("p1 " with a trailing blank) | unknown (p9): validation errors
 	Cel   string `json:"cel"`   // none | true | false
 }
 
@@ -75,7 +75,13 @@ func c13DocYAML(fileIdx, docIdx int, d c13Doc, tmpl bool, helper bool) string {
 		fmt.Fprintf(&b, "  name: %s\n", name)
 	}
 	b.WriteString("  annotations:\n    keep-me: \"yes\"\n    package-operator.run/collision-protection: IfNoController\n")
-	if d.Phase != "none" {
+	switch d.Phase {
+	case "none":
+	case "p1ws":
+		b.WriteString("    package-operator.run/phase: \"p1 \"\n")
+	case "unknown":
+		b.WriteString("    package-operator.run/phase: p9\n")
+	default:
 		fmt.Fprintf(&b, "    package-operator.run/phase: %s\n", d.Phase)
 	}
 	switch d.Cel {
@@ -198,8 +204,9 @@ func c13Rows(seed int64, n int) []c13Pkg {
 			f := c13File{Idx: fi + 1}
 			for d := 0; d < 1+rng.Intn(3); d++ {
 				dd := docs[rng.Intn(len(docs))]
-				if dd.Phase == "none" && rng.Intn(3) != 0 {
-					dd.Phase = "p2"
+				if dd.Phase == "none" {
+					// mostly valid; the invalid ones: no annotation, a phase name with stray whitespace, an unknown phase
+					dd.Phase = []string{"p2", "p2", "p2", "p2", "p2", "p2", "none", "p1ws", "unknown"}[rng.Intn(9)]
 				}
 				f.Docs = append(f.Docs, dd)
 			}
